@@ -21,6 +21,7 @@ CODES = {1: "Fill returns an error where the model builds a frame (or the other 
          13: "default ICMP payload is not 48 bytes",
          100: "(info) spoofed fields are not what the model derives from the predicted draws"}
 
+FILLER_FUNCS = r"pkg_scan_(arp|icmp|tcp|udp)___(NewPacketFiller|With\w+)|pkg_scan_(arp|icmp|tcp|udp)__PacketFiller_Fill"
 CONC_QUICK, CONC_THOROUGH = 30000, 1000000
 KIND = {"tcp": 0, "udp": 1, "icmp": 2, "arp": 3}
 TCP_BITS = ["FIN", "SYN", "RST", "PSH", "ACK", "URG", "ECE", "CWR", "NS"]
@@ -45,15 +46,25 @@ def inet_sum(data):
     return s
 
 
-def well_formed_request(o):
+def mapped4(a):
+    """The 4 address bytes of a 4-byte or 16-byte IPv4-mapped address, else None."""
+    if len(a) == 4:
+        return a
+    if len(a) == 16 and a[:12] == b"\0" * 10 + b"\xff\xff":
+        return a[12:]
+    return None
+
+
+def well_formed_request(o, wide=False):
+    """Requests inside the quantifier of the property. Addresses may come in Go's 16-byte form of an IPv4 address
+    (net.ParseIP / net.IPv4 yield it): the IPv4 based fillers have to produce the same frame as for the 4-byte form.
+    For the arp filler the pipeline guarantees a 4-byte source (getScanRange converts it, pinned by the source tie);
+    [wide] drops that guarantee and is used by the failing-input search once something is broken."""
     kind = o["kind"]
     src, dst = unhex(o["src_ip"]), unhex(o["dst_ip"])
-    if len(src) != 4:
+    if mapped4(src) is None or mapped4(dst) is None:
         return False
-    if len(dst) == 16:
-        if dst[:12] != b"\0" * 10 + b"\xff\xff":
-            return False
-    elif len(dst) != 4:
+    if kind == "arp" and len(src) != 4 and not wide:
         return False
     if kind == "arp":
         return len(unhex(o["src_mac"])) == 6
@@ -72,9 +83,9 @@ def requested(o):
     return d
 
 
-def spec_on_impl(o):
+def spec_on_impl(o, wide=False):
     """The property judged on the implementation's frame alone. Returns None or the reason it fails."""
-    if not well_formed_request(o):
+    if not well_formed_request(o, wide):
         return None        # outside the quantifier of the property
     if o["kind"] in ("udp", "icmp") and o["has_payload"] and 28 + len(o["payload"]) // 2 > 65535:
         return None        # does not fit an IPv4 datagram: outside the quantifier (the model still has to agree)
@@ -82,7 +93,7 @@ def spec_on_impl(o):
         return "Fill fails on a well-formed request: " + o["err"]
     f = bytes.fromhex(o["frame"])
     kind = o["kind"]
-    src, dst = unhex(o["src_ip"]), unhex(o["dst_ip"])[-4:]
+    src, dst = unhex(o["src_ip"])[-4:], unhex(o["dst_ip"])[-4:]
     if kind == "arp":
         if len(f) != 60:
             return "ARP frame has %d bytes, expected 60" % len(f)
@@ -285,13 +296,13 @@ def finding_key(o, why):
     return "%s:%s" % (o["kind"], " ".join(why.split()[:3]))
 
 
-def report(ctx, o, why):
+def report(ctx, o, why, wide=False):
     if any(fd["key"] == finding_key(o, why) for fd in ctx.findings):
         return      # one replay file per kind of failure is enough
     tag = "%s-%d" % (o["kind"], o["i"])
     path = ctx.write_replay(tag, {
         "property": "C05", "what": why, "case": describe(o),
-        "input": {k: o[k] for k in INPUT_KEYS if k in o},
+        "input": dict({k: o[k] for k in INPUT_KEYS if k in o}, wide=wide),
         "observed": {"err": o["err"], "frame": o["frame"]},
         "replay_cmd": "bin/check C05 --replay <this file>"})
     ctx.findings.append({"key": finding_key(o, why), "what": "%s: %s" % (describe(o), why), "replay": path})
@@ -337,6 +348,10 @@ E2E = {False: {"iface": "v0", "src_ip": "0a370001", "dst_ip": "0a370002", "dst":
               "dst_mac": "nil"}}
 
 
+E2E_OVR = ["--srcip", "10.9.8.7", "--srcmac", "02:00:5e:10:20:30"]
+E2E_OVR_WANT = {"src_ip": "0a090807", "src_mac": "02005e102030"}
+
+
 def e2e_plan(quick):
     """(name, vpn, sx arguments, expected option values, requested ports)."""
     pl3, esc3 = "deadbe", "\\xde\\xad\\xbe"
@@ -351,10 +366,15 @@ def e2e_plan(quick):
         ("icmp-type13", False, ["icmp", "--type", "13", "--code", "0", "--ttl", "37", "--payload", esc3],
          {"kind": "icmp", "typ": 13, "code": 0, "ttl": 37, "has_payload": True, "payload": pl3}, [0]),
         ("arp", False, ["arp"], {"kind": "arp"}, [0]),
+        # every packet command with --srcip / --srcmac overrides (flag parsing -> parseRawOptions -> getScanRange ->
+        # request generators -> filler): the frames must carry exactly the overriding addresses
+        ("arp-srcip", False, ["arp"] + E2E_OVR, dict({"kind": "arp"}, **E2E_OVR_WANT), [0]),
+        ("tcp-syn-srcip", False, ["tcp", "syn", "-p", "8080"] + E2E_OVR, dict({"kind": "tcp", "flags": 2}, **E2E_OVR_WANT), [8080]),
+        ("udp-srcip", False, ["udp", "-p", "123"] + E2E_OVR, dict({"kind": "udp"}, **E2E_OVR_WANT), [123]),
+        ("icmp-srcip", False, ["icmp"] + E2E_OVR, dict({"kind": "icmp"}, **E2E_OVR_WANT), [0]),
+        ("vpn-icmp-srcip", True, ["icmp", "--srcip", "10.9.8.7"], {"kind": "icmp", "src_ip": "0a090807"}, [0]),
         ("vpn-tcp-syn", True, ["tcp", "syn", "-p", "443"], {"kind": "tcp", "flags": 2}, [443]),
         ("vpn-udp", True, ["udp", "-p", "53", "--payload", esc3], {"kind": "udp", "has_payload": True, "payload": pl3}, [53]),
-        ("vpn-icmp", True, ["icmp", "--type", "13", "--payload", esc3],
-         {"kind": "icmp", "typ": 13, "has_payload": True, "payload": pl3}, [0]),
     ]
     if not quick:
         plan += [
@@ -369,6 +389,15 @@ def e2e_plan(quick):
             ("vpn-tcp-flags", True, ["tcp", "--flags", "rst,ns", "-p", "9"], {"kind": "tcp", "flags": 260}, [9]),
             ("vpn-udp-iplen", True, ["udp", "-p", "7", "--iplen", "1500"], {"kind": "udp", "iplen": 1500}, [7]),
             ("vpn-icmp-default", True, ["icmp"], {"kind": "icmp"}, [0]),
+            ("arp-srcip-only", False, ["arp", "--srcip", "10.55.0.77"], {"kind": "arp", "src_ip": "0a37004d"}, [0]),
+            ("vpn-icmp", True, ["icmp", "--type", "13", "--payload", esc3],
+             {"kind": "icmp", "typ": 13, "has_payload": True, "payload": pl3}, [0]),
+            ("tcp-flags-srcip", False, ["tcp", "--flags", "ack", "-p", "25"] + E2E_OVR, dict({"kind": "tcp", "flags": 16}, **E2E_OVR_WANT), [25]),
+            ("tcp-fin-srcip", False, ["tcp", "fin", "-p", "26"] + E2E_OVR, dict({"kind": "tcp", "flags": 1}, **E2E_OVR_WANT), [26]),
+            ("tcp-null-srcip", False, ["tcp", "null", "-p", "27"] + E2E_OVR, dict({"kind": "tcp", "flags": 0}, **E2E_OVR_WANT), [27]),
+            ("tcp-xmas-srcip", False, ["tcp", "xmas", "-p", "28"] + E2E_OVR, dict({"kind": "tcp", "flags": 41}, **E2E_OVR_WANT), [28]),
+            ("vpn-tcp-srcip", True, ["tcp", "syn", "-p", "29", "--srcip", "10.9.8.7"], {"kind": "tcp", "flags": 2, "src_ip": "0a090807"}, [29]),
+            ("vpn-udp-srcip", True, ["udp", "-p", "30", "--srcip", "10.9.8.7"], {"kind": "udp", "src_ip": "0a090807"}, [30]),
         ]
     return plan
 
@@ -378,6 +407,9 @@ def e2e(ctx, quick, only=None):
     device (no link header: the datagrams are read from the tun file descriptor) -- and return what appeared on the
     wire as observations of the same shape as the harness rows."""
     import subprocess
+    if os.environ.get("VERIF_C05_NO_E2E"):
+        ctx.skipped.append("e2e: switched off by VERIF_C05_NO_E2E")
+        return []
     ns = "c05e%d" % os.getpid()
     work = ctx.work
     sx = os.path.join(work, "sx")
@@ -412,7 +444,7 @@ def e2e(ctx, quick, only=None):
                 continue
             env = E2E[vpn]
             cap = os.path.join(work, "cap_%s.jsonl" % name)
-            capargs = ["-tun", "tun5"] if vpn else ["-capture", "v1", "-srcmac", env["src_mac"]]
+            capargs = ["-tun", "tun5"] if vpn else ["-capture", "v1", "-srcmac", want.get("src_mac", env["src_mac"])]
             p = subprocess.Popen(["ip", "netns", "exec", ns, exe] + capargs + ["-out", cap, "-count", str(len(ports)),
                                   "-timeout", "3s"], stdout=subprocess.PIPE, text=True, cwd=work)
             p.stdout.readline()          # "ready"
@@ -525,6 +557,17 @@ def run(ctx):
                 seen += 1
                 if seen >= 3:
                     break
+        # Something upstream of the fillers changed (commands, interface / source address selection, request
+        # generators): what the pipeline guarantees about the requests it hands to Fill -- a 4-byte source address for
+        # the arp filler -- may be exactly what broke, so judge the fillers on the widened request domain as well.
+        upstream = [n for n in getattr(ctx, "source_diff", []) if not re.fullmatch(FILLER_FUNCS, n)]
+        if not ctx.findings and upstream:
+            ctx.info.append("widened search (16-byte source addresses for the arp filler) because %s changed" % ", ".join(upstream[:4]))
+            for o in rows + more:
+                why = spec_on_impl(o, wide=True)
+                if why:
+                    report(ctx, o, why, wide=True)
+                    break
     # one finding per key is enough
     uniq, keys = [], set()
     for fd in ctx.findings:
@@ -574,7 +617,7 @@ def replay(ctx, path):
         print(out)
         return 1
     o = ctx.read_jsonl(os.path.join(ctx.work, "one.jsonl"))[0]
-    why = spec_on_impl(o)
+    why = spec_on_impl(o, wide=bool(r["input"].get("wide")))
     print("replay %s: frame=%s err=%s" % (describe(o), o["frame"], o["err"] or "none"))
     print("replay verdict: %s" % (why or "property holds on this input"))
     return 1 if why else 0
